@@ -32,6 +32,7 @@ class HistoryRun:
         self.pool = {}            # digest (both algs) -> bytes of every content ever offered
         self.committed = {}       # id -> list of {path: digest} per committed version (as staged at commit time)
         self.alg = {}             # id -> digest algorithm
+        self.shapes = {}          # targeted generator shapes -> how often produced
         for c in hist.CONTENTS:
             self.remember(c)
 
@@ -108,6 +109,31 @@ class HistoryRun:
             dst = rng.choice([pick_path(), pick_dir(), pick_dir() + "/", "/", rng.choice(NAMES), "new/"])
             nmain = len(view["main"][oid][1]["versions"]) if oid in view["main"] else 0
             ver = None if op == "mv_int" or rng.random() < 0.6 or nmain == 0 else rng.randint(1, nmain + 1)
+            if nmain > 0 and rng.random() < 0.3:
+                # cross-version shape: the source is taken from the tree of an older version, the destination from
+                # names whose file/directory status DIFFERS between that version and the staged head (the
+                # destination rule must look at the staged head, the source resolution at the source version)
+                minv = view["main"][oid][1]
+                cands = []
+                for vk, vv in minv["versions"].items():
+                    vpaths = sorted(pp for ps in vv["state"].values() for pp in ps)
+                    vdirs = {"/".join(q.split("/")[:k]) for q in vpaths for k in range(1, len(q.split("/")))}
+                    ddiff = sorted(set(dirs) ^ vdirs)
+                    pdiff = sorted(set(paths) ^ set(vpaths))
+                    if vpaths:
+                        cands.append((absinv.vnum_of(vk), vpaths, sorted(vdirs), ddiff, pdiff))
+                good = [c for c in cands if c[3]] or cands
+                if good:
+                    vn, vpaths, vdirs, ddiff, pdiff = rng.choice(good)
+                    op, ver = "cp_int", vn
+                    k2 = rng.random()
+                    src = [rng.choice(vpaths)] if k2 < 0.75 else [rng.choice(vdirs)] if vdirs and k2 < 0.9 else [rng.choice(vpaths), rng.choice(vpaths)]
+                    if ddiff and rng.random() < 0.8:
+                        dst = rng.choice(ddiff)
+                        self.shapes["cp_int from older version, dst is a directory in only one of source version / staged head"] = \
+                            self.shapes.get("cp_int from older version, dst is a directory in only one of source version / staged head", 0) + 1
+                    elif pdiff and rng.random() < 0.5:
+                        dst = rng.choice(pdiff)
             return {"op": op, "id": oid, "version": ver, "src": src, "dst": dst, "recursive": rng.random() < 0.6}
         if r < 0.54:
             k = rng.random()
